@@ -360,6 +360,13 @@ func exec(o op, vals []value) (res obsv) {
 			res.want = "false"
 			return
 		}
+		if o.uns%5 == 1 {
+			// one instance as both operands: what the owning runtime says (Gogo compares floats with ==, so a message
+			// holding a NaN is not equal to itself there)
+			res.got = fmt.Sprint(csproto.Equal(m, m))
+			res.want = fmt.Sprint(rtEqual(pv, pv))
+			return
+		}
 		if pm, isV2 := m.(proto.Message); isV2 && v.k.class == csproto.MessageTypeGoogle && o.uns%2 == 0 {
 			// the other operand as a dynamic message of the same descriptor: another Go type, the same message type
 			if po, ok := other.(proto.Message); ok {
